@@ -47,15 +47,22 @@ RULES = ("mixed_links", "cycles", "multipath", "multiverse")
 
 
 # ------------------------------------------------------------------ canonical walk
-def _attr_children(val, out):
+def _attr_children(val, out, seen=None):
     if kind_of(val) != "o":
         out.append(val)
-    elif isinstance(val, (list, tuple)):
-        for x in val:
-            _attr_children(x, out)
-    elif isinstance(val, dict):
+        return
+    if not isinstance(val, (list, tuple, dict)):
+        return
+    seen = {} if seen is None else seen
+    if id(val) in seen:
+        return
+    seen[id(val)] = val
+    if isinstance(val, dict):
         for k in sorted(val, key=str):
-            _attr_children(val[k], out)
+            _attr_children(val[k], out, seen)
+    else:
+        for x in val:
+            _attr_children(x, out, seen)
 
 
 def children(obj):
@@ -108,14 +115,26 @@ def enc(w, val):
         return val
     if kind_of(val) != "o":
         return {"ref": w.lab(val)}
-    if isinstance(val, list):
-        return [enc(w, x) for x in val]
-    if isinstance(val, tuple):
-        return {"tuple": [enc(w, x) for x in val]}
-    if isinstance(val, dict):
-        return {"dict": [[str(k), enc(w, val[k])] for k in sorted(val, key=str)]}
-    if isinstance(val, (bytes, bytearray)):
-        return {"bytes": [len(val), engine.h64(bytes(val[:64]).hex() + str(len(val)))]}
+    if isinstance(val, (list, tuple, dict, bytes, bytearray)):
+        # "shared objects still shared": containers are numbered by first
+        # visit (a deterministic order: objects by canonical label, attributes
+        # by name), and a second visit only names the number.  This also ends
+        # the walk of a container that holds itself.
+        table = w.__dict__.setdefault("container_ids", {})
+        hit = table.get(id(val))
+        if hit is not None and hit[1] is val:
+            return {"same": hit[0]}
+        num = len(table)
+        table[id(val)] = (num, val)
+        if isinstance(val, list):
+            body = [enc(w, x) for x in val]
+        elif isinstance(val, tuple):
+            body = {"tuple": [enc(w, x) for x in val]}
+        elif isinstance(val, dict):
+            body = {"dict": [[str(k), enc(w, val[k])] for k in sorted(val, key=str)]}
+        else:
+            body = {"bytes": [len(val), engine.h64(bytes(val[:64]).hex() + str(len(val)))]}
+        return {"c": num, "v": body}
     return f"?{type(val).__name__}"
 
 
@@ -164,6 +183,7 @@ def record(w, obj, with_uid=True):
 def canon_snapshot(w, with_uid=True):
     n0 = len(w.objs)
     snap = {}
+    w.container_ids = {}
     for lab in list(w.objs):
         snap[lab] = record(w, w.objs[lab], with_uid)
     if len(w.objs) != n0:
@@ -209,6 +229,20 @@ class PExec(O.Exec):
                 return blobs[key]
             if "ref" in v:
                 return self.g(v["ref"])
+            if "shared" in v:
+                # one OBJECT per key in this world (until the next pickle), so
+                # that several attributes hold the very same container -- which
+                # is then reachable from its own elements (a recursive tuple)
+                table = self.__dict__.setdefault("shared_vals", {})
+                key = v["shared"]
+                if key not in table:
+                    val = self.decode_val(v["val"])
+                    if v.get("selfref") and isinstance(val, list):
+                        val.append(val)
+                    if v.get("selfref") and isinstance(val, dict):
+                        val["me"] = val
+                    table[key] = val
+                return table[key]
             if "tuple" in v:
                 return tuple(self.decode_val(x) for x in v["tuple"])
             if "dict" in v:
@@ -253,6 +287,24 @@ class PExec(O.Exec):
         self.w.add(op["new"], root)
         self.shape_objs = (verts, edges, uni)
         return {"vertices": n, "edges": len(edges)}
+
+
+def _spec_refs(spec):
+    """The {"ref": label} entries of an attribute value description."""
+    out = []
+    if isinstance(spec, dict):
+        if "ref" in spec:
+            out.append(spec)
+        for key in ("val", "tuple"):
+            if key in spec:
+                out.extend(_spec_refs(spec[key]))
+        if "dict" in spec:
+            for _, x in spec["dict"]:
+                out.extend(_spec_refs(x))
+    elif isinstance(spec, list):
+        for x in spec:
+            out.extend(_spec_refs(x))
+    return out
 
 
 # ------------------------------------------------------------------ recursion knob
@@ -415,6 +467,7 @@ class St(common.HistState):
         self.step_no = 0
         self.focus = []
         self.done = False
+        self.shared_epoch = 0
 
 
 ATTR_NAMES = ["colour", "weight", "note", "peer", "bag"]
@@ -474,6 +527,7 @@ class C10(engine.Property):
         "slotted-attributes-pickled",
         "law-set-made-a-universe-member",
         "attribute-holding-an-accessor-result",
+        "container-shared-between-attributes",
     ]
 
     # -- configuration --------------------------------------------------------------------
@@ -635,7 +689,30 @@ class C10(engine.Property):
         elif r < 0.07 and view.vertices():
             val = {"accessor": [rng.choice(view.vertices()), rng.choice(["links", "universes"])]}
             st.stats["probe:attribute-holding-an-accessor-result"] += 1
-        elif r < 0.12:
+        elif r < 0.16 and refs:
+            # one container OBJECT held by several attributes; with the holder
+            # among its own elements it is reachable from itself
+            specs = st.__dict__.setdefault("shared_specs", {})
+            key = f"s{st.shared_epoch}-{rng.randrange(2)}"
+            if key not in specs:
+                members = [{"ref": x} for x in rng.sample(refs, min(len(refs), rng.randint(1, 4)))]
+                shape = rng.choice(["tuple", "tuple", "tuple", "list", "dict"])
+                spec = {"shared": key}
+                if shape == "tuple":
+                    spec["val"] = {"tuple": members + ([rng.randrange(5)] if rng.random() < 0.3 else [])}
+                elif shape == "list":
+                    spec["val"] = members
+                    spec["selfref"] = rng.random() < 0.5
+                else:
+                    spec["val"] = {"dict": [[f"k{i}", m] for i, m in enumerate(members)]}
+                    spec["selfref"] = rng.random() < 0.5
+                specs[key] = spec
+            val = specs[key]
+            inner = [m["ref"] for m in _spec_refs(val)]
+            if inner and rng.random() < 0.6:
+                obj = rng.choice(inner)
+            st.stats["probe:container-shared-between-attributes"] += 1
+        elif r < 0.20:
             # binary data: small and shared between attributes, or past the
             # size at which pickle writes bytes out of band (64 KiB)
             val = {"blob": rng.choice([0, 3, 3, 40, 65536, 70001]), "key": rng.randrange(2)}
@@ -655,6 +732,8 @@ class C10(engine.Property):
         return {"op": "set_attr", "obj": obj, "name": name, "val": val, "via": rng.choice(["item", "attr"])}
 
     def _pickle_op(self, rng, cfg, st):
+        # the copy starts without the containers shared so far: new keys from here on
+        st.shared_epoch += 1
         p = cfg["pickle"]
         view = st.view
         op = {"op": "pickle"}
@@ -830,6 +909,9 @@ class C10(engine.Property):
         if getattr(st, "warmed", False):
             s["probe:warm-memo-pickled"] += 1
         deep = st.cfg["deep"]
+        # the far side starts without this side's table of shared containers
+        st.ex.__dict__.pop("shared_vals", None)
+        st.ex.__dict__.pop("blobs", None)
         # the original, renumbered canonically from the root
         wc = canonical_world(root)
         canon0 = canon_snapshot(wc)
